@@ -269,6 +269,17 @@ func runC03Random(c *fw.Ctx) {
 	o := RandOptions(r)
 	o.Whitelist = append(o.Whitelist, 3, 4)
 	o.Whitelist = dedupInts(o.Whitelist)
+	if r.Chance(12) {
+		// a raised order that only a genesis file can hold: its purchaser is an address the bank refuses
+		// to pay. Whatever BeginBlock does once the signers accept it (on this tree: halt), the order
+		// must never be reported completed without its amount being locked for the purchaser
+		mod := []string{"fee_collector", "distribution", "bonded_tokens_pool", "stream"}[r.Intn(4)]
+		o.GenesisPOs = append(o.GenesisPOs, enttypes.EnterpriseUndPurchaseOrder{Id: o.PoStartID, Purchaser: lab.ModAddr(mod).String(),
+			Amount: sdk.NewInt64Coin(o.Ent.Denom, int64(r.Range(1, 1_000_000))), Status: enttypes.StatusRaised, RaiseTime: uint64(lab.StartTime.Unix())})
+		o.ExtraWhitelist = append(o.ExtraWhitelist, lab.ModAddr(mod).String())
+		o.PoStartID++
+		c.Count("genesis_orders_of_blocked_module_accounts", 1)
+	}
 	e := NewEnv(c, o)
 	defer e.L.Cleanup()
 	g := NewGen(e)
